@@ -17,6 +17,9 @@ CHECKS = {
  "C11": dict(level="exploration", engine="bex", technique="exhaustive small-scope enumeration of tag parameters, all WebSocket lengths 0..70000, and all short tag sequences through the real file writer/reader and HTTP-FLV / WS-FLV sub sessions against reference FLV and RFC 6455 parsers",
    text="Every (type, boundary length, boundary timestamp) tag through PackHttpflvTag / RtmpMsg2FlvTag / ReadTag / FlvTag2RtmpMsg / ModTagTimestamp; MakeWsFrameHeader for every length 0..70000 plus large values; every sequence of <= 4 tags over a 6-letter alphabet written by the real FlvFileWriter (read back by FlvFileReader) and by real httpflv.SubSession objects (plain and WebSocket) over an in-memory connection, parsed by reference parsers.",
    note="Trusted: lib/ref/flv.go. Sub-session write queue forced to size 0 (synchronous). Live-path FLV output of a whole group is additionally covered by C01.", design="C11"),
+ "C12": dict(level="exploration", engine="bex", technique="exhaustive small-scope enumeration of unit sizes/headers/clock/seq through the real RTP packers and unpack container, plus ALL arrival permutations and single duplications of short packet streams filtered by a reference reorder-buffer model",
+   text="Every unit size around every multiple of the payload limit (L=4,8,16 dense; L=1200 to 300 KiB), every AVC (type 0..23 x NRI) and HEVC (type 0..47 x layer x tid) header, AVCC/Annex-B frames of 1-3 units, audio sizes, 4 clock rates x media times incl. the 32-bit RTP timestamp wrap x first sequence numbers near 65535, through lal's RtpPacker; packets are parsed by a reference RTP parser (limit, marker, seq, timestamp) and depacketised by RFC 6184/7798/3640 reference depacketisers and by lal's RtpUnpackContainer. Every permutation (first packet fixed) and every single duplication of 11 stream shapes x container capacity {2,3,4,16} x 5 first sequence numbers that the reference reorder-buffer model accepts must give the in-order output.",
+   note="Trusted: lib/ref/rtp.go. 'Inside the window' is defined by a reference buffer model of capacity W (see assumptions in the evidence). Depacketised timestamps are C07's subject.", design="C12"),
 }
 NOT_YET = "check not built yet in this session (work in progress; see DESIGN.md section for the planned model-checking design)"
 
